@@ -63,7 +63,7 @@ def meta(tier):
                             memo_line_len=2 if q else 3),
                 assumptions=["the hard-reset reference = memo cleared, SYMBOL_TABLES.clear(), BLOCK counter 0, then the real ParserFactory.create(std) (validated against a fresh native process by witness replay)",
                              "synthetic BLOCK scope names are renumbered before comparing (process-wide counter by design)"],
-                budget_s=400 if q else 2400, unit_budget_s=60 if q else 300, witness_every=10)
+                budget_s=400 if q else 1500, unit_budget_s=60 if q else 300, witness_every=10)
 
 
 def _tables():
